@@ -281,7 +281,7 @@ def record_real(fi, data, read_size, flavour, expected, inject, rnd, allowed=Non
         orig = insp.eat_chunk
 
         def wrapped(chunk, insp=insp, orig=orig):
-            st.log.append(('feed', insp.NAME, st.read_index))
+            st.log.append(('feed', insp.NAME, st.read_index, fail_at[insp.NAME] != 0))
             try:
                 if inject and inject[0] == insp.NAME and inject[1] == st.read_index:
                     if inject[1] % 2:
@@ -350,11 +350,34 @@ def record_real(fi, data, read_size, flavour, expected, inject, rnd, allowed=Non
     joined = b''.join(got)
     transparent = joined == data[:len(joined)] and (exc != 'none' or joined == data)
     ev = []
+    grp = []
+
+    def flush(aborted):
+        # what one read did, at the grain of the specification: which inspectors it reached (a read handed over in
+        # several pieces reaches an inspector several times: one feed), the one whose failure ended it last - and
+        # separately every call made to an inspector that had ALREADY failed
+        names = []
+        for g in grp:
+            if g[1] not in names:
+                names.append(g[1])
+        if aborted and grp:
+            names.remove(grp[-1][1])
+            names.append(grp[-1][1])
+        for nm in names:
+            ev.append({'op': 'feed', 'c': [g[2] for g in grp if g[1] == nm][0], 'i': nm})
+        for g in grp:
+            if g[3]:
+                ev.append({'op': 'feed_after_failure', 'c': g[2], 'i': g[1]})
+        del grp[:]
     for e in st.log:
+        if e[0] == 'feed':
+            if grp and grp[-1][2] != e[2]:
+                flush(False)
+            grp.append(e)
+            continue
+        flush(e[0] == 'raise')
         if e[0] == 'start':
             ev.append({'op': 'start', 'c': e[1], 'i': ''})
-        elif e[0] == 'feed':
-            ev.append({'op': 'feed', 'c': e[2], 'i': e[1]})
         elif e[0] == 'end':
             ev.append({'op': 'end', 'c': e[1], 'i': ''})
         elif e[0] == 'raise':
@@ -419,6 +442,11 @@ def real_traces(ctx, fi):
             if nreads > 100:
                 rs = 65536
                 nreads = max(1, (len(data) + rs - 1) // rs)
+            if j % 15 == 7:
+                # a stream and a read size beyond a mebibyte: a read is still ONE feed per inspector
+                data = data + images.rnd_bytes(rnd, 2400000 - len(data))
+                rs = (1 << 20) + (1 << 19) + 3
+                nreads = 2
             inject = None
             if j % 2:
                 inject = (rnd.choice([f for f in FORMATS[1:] if not allowed or f in allowed] or FORMATS[1:]), rnd.randint(1, min(8, nreads)))
